@@ -38,10 +38,13 @@ MCZ4 == IF NQ >= 4 THEN {G("MCtrlZ", "MCZ", <<0, 1, 2, 3>>, 0), G("MCtrlZ", "MCZ
 Alphabet ==
   CASE Family = "classical" -> X1 \cup CX2 \cup CCX3
     [] Family = "sections" -> X1 \cup CX2 \cup CCX3 \cup MCX4 \cup Bar \cup {G("I", "I", <<NQ - 1>>, 0)}
+                              \cup (IF NQ >= 3 THEN {G("MCtrlX", "MCX", <<1, 2, 0>>, 0)} ELSE {})      \* a Toffoli built through the generic MCtrl class
                               \cup {G("H", "H", <<0>>, 0), G("Z", "Z", <<1 % NQ>>, 0), G("T", "T", <<(NQ - 1)>>, 0)}
     [] Family = "xhbar" -> X1 \cup Bar \cup {G("H", "H", <<0>>, 0), G("H", "H", <<1 % NQ>>, 0)}
     [] Family = "cxnet" -> CX2 \cup {G("H", "H", <<0>>, 0)}
-    [] Family = "full" -> X1 \cup CX2 \cup CCX3 \cup MCX4 \cup Bar \cup {G("I", "I", <<0>>, 0)} \cup Single("H") \cup Single("Z") \cup Single("S")
+    [] Family = "full" -> X1 \cup CX2 \cup CCX3 \cup MCX4 \cup Bar \cup {G("I", "I", <<0>>, 0)} \cup Single("H")
+                          \cup {G("P", "P", <<q>>, m) : q \in {0, NQ - 1}, m \in {0, 2, 6}}              \* the single-qubit phase gate, incl. phase 0
+                          \cup {G("CP", "MCP", <<0, 1>>, 0)} \cup Single("Z") \cup Single("S")
                           \cup Single("T") \cup Single("Y") \cup CZ2 \cup SW2 \cup CP2 \cup MCZ3 \cup MCX3 \cup MCZ4
 
 Init == s = <<>>
